@@ -405,7 +405,7 @@ Proof.
     cbn [app] in *. apply andb_true_iff. split.
     + apply forallb_forall. intros c Hc. apply memc_In. apply Hall. exact Hc.
     + apply Sub_subseqb. exact Hs.
-  - destruct streams as [|s0 rest] using rev_ind; [reflexivity|].
+  - induction streams as [|s0 streams _] using rev_ind; [reflexivity|].
     rewrite removelast_snoc. apply forallb_forall. intros c Hc. apply Nat.eqb_eq.
     assert (Hfirst : In c (prioritized (streams ++ [None]))).
     { apply prioritized_complete. rewrite flat_app. apply in_app_iff. left. exact Hc. }
